@@ -43,9 +43,21 @@ def stepGlob (fields : List String) : Option String :=
   | ["wfglob", g] => do pure (encodeBool (Spec.wfGlob (← decodeText g)))
   | _ => none
 
+def stepDep5 (fields : List String) : Option String :=
+  match fields with
+  | ["dep5row", d, ps] => do
+      let d ← decodeText d
+      let ps ← decodeList ps
+      match Model.dep5Blocks d with
+      | none => pure "invalid"
+      | some _ => pure (bits (ps.map (Model.dep5Match d ·)))
+  | ["convglob", d] => do pure (encodeText (Model.convertGlob (← decodeText d)))
+  | ["dep5plain", d] => do pure (encodeBool (Spec.dep5Plain (← decodeText d)))
+  | _ => none
+
 def step (line : String) : String :=
   let fields := line.splitOn "\t"
-  match stepStr fields <|> stepIgnore fields <|> stepGlob fields with
+  match stepStr fields <|> stepIgnore fields <|> stepGlob fields <|> stepDep5 fields with
   | some out => out
   | none => "bad-op"
 
